@@ -50,6 +50,9 @@ def address_universe(tier):
     # the server may spell hexadecimal digits in upper case (and mixed), also in the IPv4-mapped prefix
     texts += [t.upper() for t in texts if any(c in 'abcdef' for c in t)][::7]
     texts += ['2001:DB8::A:B', 'FE80::1:2:3:4', '0::FFFF:192.0.2.77', 'AbCd:0:0:eF01::1', 'FFFF:FFFF:FFFF:FFFF:FFFF:FFFF:FFFF:FFFF']
+    # spellings longer than the canonical text can ever be: six groups and a dotted quad, zero-padded groups
+    texts += ['1111:2222:3333:4444:5555:6666:123.123.123.123', 'ffff:ffff:ffff:ffff:ffff:ffff:255.255.255.255', '0:0:0:0:0:ffff:123.123.123.123', '0:0:0:0:0:0:123.123.123.123',
+              '0001:0002:0003:0004:0005:0006:0007:0008', '2001:0db8:0000:0000:0000:0000:0000:0001']
     return sorted(set(texts))
 
 _W = {}
